@@ -21,6 +21,7 @@ type mService struct {
 	chain   *mChain
 	id      string
 	ordered bool
+	late    bool // not registered by the prologue
 }
 
 func (s *mService) full(bxh uint64) string { return fullServiceID(bxh, s.chain.id, s.id) }
@@ -293,6 +294,11 @@ func (s *scn) setup() {
 	if !s.voteAll(pids) {
 		return
 	}
+	if s.cfg.Late {
+		for _, c := range s.chains {
+			c.services = append(c.services, &mService{chain: c, id: "sl", ordered: true, late: true})
+		}
+	}
 	for _, c := range s.chains {
 		for _, sv := range c.services {
 			for _, d := range s.chains {
@@ -402,6 +408,9 @@ func (s *scn) applyIBTP(st CStep) {
 	p := s.pairs[((st.Pair%len(s.pairs))+len(s.pairs))%len(s.pairs)]
 	bxh := s.cfg.World.ChainID
 	from, to := p.src.full(bxh), p.dst.full(bxh)
+	if st.Ghost {
+		to = fullServiceID(bxh, p.dst.chain.id, "ghost")
+	}
 	ib := &pb.IBTP{From: from, To: to, TimeoutHeight: st.T}
 	var sender *Key
 	pm := s.ibtp.pair(from, to)
